@@ -39,7 +39,7 @@ DECLS = [
     {"req": 1, "opt": 1, "faw": True, "content": True, "spec": True},
 ]
 ADDLS = [[], [["b", "1"], ["a", "1"]], [["a", "x"], ["u", "1"]]]
-FIRST_TEXT = {0: "", 1: "A1", 2: "A1 A2", 3: "A1  A2 A3"}
+FIRST_TEXT = {0: "", 1: "A1", 2: "A1  A2", 3: "A1 A2  A3"}      # (runs of blanks: inside a final argument they are content)
 
 
 def _decl_expr(d):
@@ -131,7 +131,11 @@ def observe(cls, first_text, texts, addl, trail=True, roles=None):
     w_opt = sum(1 for w in r.warnings if w.type == MystWarnings.DIRECTIVE_OPTION)
     w_parse = sum(1 for w in r.warnings if w.type == MystWarnings.DIRECTIVE_PARSING)
     other = [w.type.value for w in r.warnings if w.type not in (MystWarnings.DIRECTIVE_OPTION, MystWarnings.DIRECTIVE_PARSING)]
-    args_ok = " ".join(r.arguments).split() == first_text.split() if r.arguments else True
+    # the arguments are the words of the first line; with final_argument_whitespace the last one is the REST of the line
+    # as written (docutils: split(None, n - 1)), inner white space included
+    nmax = cls.required_arguments + cls.optional_arguments
+    want_args = first_text.split(None, nmax - 1) if (nmax and len(first_text.split()) > nmax and cls.final_argument_whitespace) else first_text.split()
+    args_ok = list(r.arguments) == want_args if r.arguments else True
     return {"st": "ok", "args": len(r.arguments) if args_ok else -1, "opts": sorted(opts), "body": idx, "merged": merged,
             "off": r.body_offset, "w_opt": w_opt, "w_parse": w_parse, "other": other}, content
 
